@@ -323,6 +323,28 @@ func genTypedDoc(r *core.Rand, kind string) (string, map[string]string) {
 		if r.Chance(1, 10) {
 			b.WriteString("X-Custom-" + strconv.Itoa(r.Intn(9)) + ": whatever\n")
 		}
+		if r.Chance(1, 12) {
+			// a real Debian field this document kind has no struct field for, with a value in a
+			// syntax dpkg still accepts (obsolete operators, a bare version) or in none at all:
+			// an unknown field is carried, never interpreted
+			known := map[string]bool{}
+			for _, x := range specs {
+				known[x.Deb] = true
+			}
+			var pool []string
+			for _, other := range docSpecs {
+				for _, x := range other {
+					if !known[x.Deb] {
+						pool = append(pool, x.Deb)
+					}
+				}
+			}
+			pool = append(pool, "Pre-Depends", "Enhances", "Conflicts", "Provides", "Essential", "Bugs", "Origin", "Protected", "Important", "Package-List", "Testsuite", "Dgit", "Vcs-Git", "Rules-Requires-Root")
+			name := pool[r.Intn(len(pool))]
+			if !known[name] && !strings.Contains(b.String(), "\n"+name+":") && !strings.HasPrefix(b.String(), name+":") {
+				b.WriteString(name + ": " + r.Pick([]string{"oldfoo (< 2.0)", "foo (> 1)", "bar (1.0)", "yes!", "1 2 3", "a | | b", "x (= 1) (= 2)", "${unterminated", "né", "0x10"}) + "\n")
+			}
+		}
 	}
 	return b.String(), expect
 }
@@ -827,9 +849,28 @@ func streamDocs(g *core.G) {
 			if kind == "BestChecksums" || kind == "SourceIndex" || kind == "BinaryIndex" || kind == "DSC" {
 				g.Emit("law-docembed", kind, core.Hex(text))
 			}
+			if (kind == "BinaryIndex" || kind == "SourceIndex") && i%25 == 0 {
+				// a long index (65-600 stanzas) with none, one or two damaged stanzas somewhere: the
+				// outcome is that of reading it front to back
+				var parts []string
+				for k := r.Pick2(r.Range(65, 140), r.Range(500, 600)); k > 0; k-- {
+					t, _ := genTypedDoc(r, kind)
+					parts = append(parts, t)
+				}
+				for bad := r.Intn(3); bad > 0; bad-- {
+					parts[r.Intn(len(parts))] += r.Pick([]string{"Version: 1 2\n", "no colon here\n", "Size: abc\n", "Installed-Size: x\n"})
+				}
+				long := strings.Join(parts, "\n")
+				o, a := codecOp("docus", kind, core.Hex(long))
+				g.Emit(o, a...)
+			}
 			if kind == "BinaryIndex" || kind == "SourceIndex" {
 				t2, _ := genTypedDoc(r, kind)
 				multi := text + "\n" + t2
+				if r.Chance(1, 4) {
+					// a commented-out stanza / a comment-only block between blank lines is no paragraph
+					multi = r.Pick([]string{"", "# generated file\n\n"}) + text + "\n# Package: disabled\n# Version: 0\n\n" + t2
+				}
 				if r.Chance(1, 8) {
 					multi += "\nVersion: 1 2\n" // a broken paragraph at the end
 				}
@@ -861,6 +902,12 @@ func streamDocs(g *core.G) {
 		for k := r.Range(1, 3); k > 0; k-- {
 			b, _ := genTypedDoc(r, "BinaryParagraph")
 			text += strings.Repeat("\n", r.Range(1, 2)) + b
+			if r.Chance(1, 5) {
+				text += "\n# Package: commented-out\n# Architecture: all\n"
+			}
+		}
+		if r.Chance(1, 6) {
+			text = "# a header comment, then a blank line\n\n" + text
 		}
 		args := append(schemaTokens(codecTypes["SourceParagraph"]), schemaTokens(codecTypes["BinaryParagraph"])...)
 		g.Emit("docctl", append(args, core.Hex(text))...)
